@@ -696,7 +696,8 @@ The sequence of neighbors is guaranteed to be sorted."""
         for u in G.nodes():
             try:
                 color = G.nodes[u]['bipartite']
-                assert color in ['0', 0, '1', 1]
+                if color not in ['0', 0, '1', 1]:
+                    raise AssertionError
             except (KeyError, AssertionError):
                 raise ValueError(
                     "Node {} lacks the 'bipartite' property set to 0 or 1".format(u))
